@@ -13,6 +13,7 @@ import (
 
 	"verif/harness/peer"
 	"verif/harness/sched"
+	"verif/harness/vchan"
 	"verif/harness/vt"
 )
 
@@ -52,6 +53,7 @@ func c09alphabet() []c09op {
 		{"reply", 1}, {"reply", 2}, {"reply", 3}, {"err", 1}, {"unk", 0},
 		{"cancel", 1}, {"cancel", 2}, {"tmo", 0},
 		{"call", 0}, {"rel", 0}, {"stop", 0},
+		{"cbfail", 1}, {"burst", 0},
 	}
 }
 
@@ -63,6 +65,9 @@ type c09inst struct {
 	outcome  []string
 	deadline bool
 	cancel   context.CancelFunc
+	// lingering: the request could not be transmitted; Callback has returned, but
+	// the server may keep its bookkeeping entry until the caller's context ends
+	lingering bool
 }
 
 type c09world struct {
@@ -228,9 +233,23 @@ func (w *c09world) check(when string) {
 			}
 		}
 		sort.Strings(outst)
+		linger := 0
+		for _, in := range w.insts {
+			if in.lingering {
+				linger++
+			}
+		}
 		snap := w.rig.Srv.VerifSnapshot()
-		if strings.Join(outst, ",") != strings.Join(snap.Callbacks, ",") {
-			c.Failf("%s: outstanding callback ids are %v, the model says %v", when, snap.Callbacks, outst)
+		have := map[string]bool{}
+		for _, id := range snap.Callbacks {
+			have[id] = true
+		}
+		missing := false
+		for _, id := range outst {
+			missing = missing || !have[id]
+		}
+		if missing || len(snap.Callbacks) < len(outst) || len(snap.Callbacks) > len(outst)+linger {
+			c.Failf("%s: outstanding callback ids are %v, the model says %v (+ at most %d entries of callbacks whose request could not be sent and whose context is still live)", when, snap.Callbacks, outst, linger)
 		}
 	}
 }
@@ -287,6 +306,51 @@ func (w *c09world) apply(op c09op) {
 		} else {
 			w.learn(in)
 		}
+	case "cbfail": // a Callback whose request cannot be transmitted (the channel's Send fails once)
+		in := w.newInst(op.slot)
+		ctx, cancel := context.WithCancel(context.Background())
+		in.cancel = cancel
+		in.started = true
+		if !w.stopped {
+			sends, _, _ := rig.End.Counts()
+			rig.End.AddFault(vchan.Fault{Op: vchan.OpSend, N: int(sends) + 1, Err: peer.ErrRigFault})
+		}
+		tag := fmt.Sprintf("cb#%d", in.n)
+		go func() {
+			rsp, err := rig.Srv.Callback(ctx, "cb", map[string]int{"n": in.n})
+			w.log().Add("api.ret", tag, c09describe(rsp, err))
+		}()
+		rig.Settle()
+		in.done = true
+		if w.stopped {
+			in.outcome = []string{"connclosed"}
+		} else {
+			in.outcome = []string{"err:*"} // the transmission error; nothing reached the wire
+			in.lingering = true
+		}
+	case "burst": // three Notify and one Callback issued at the same moment
+		if w.stopped {
+			break
+		}
+		in := w.newInst(2)
+		ctx, cancel := context.WithCancel(context.Background())
+		in.cancel = cancel
+		in.started = true
+		tag := fmt.Sprintf("cb#%d", in.n)
+		for k := 0; k < 3; k++ {
+			go func() {
+				if err := rig.Srv.Notify(context.Background(), "note", []int{1}); err != nil {
+					w.c.Failf("concurrent Notify returned %v", err)
+				}
+			}()
+		}
+		go func() {
+			rsp, err := rig.Srv.Callback(ctx, "cb", map[string]int{"n": in.n})
+			w.log().Add("api.ret", tag, c09describe(rsp, err))
+		}()
+		rig.Settle()
+		w.learn(in)
+		w.expect = append(w.expect, "request id= method=note", "request id= method=note", "request id= method=note")
 	case "ncb":
 		if !w.stopped {
 			in := w.newInst(3)
@@ -320,6 +384,7 @@ func (w *c09world) apply(op c09op) {
 	case "cancel":
 		if in := w.slots[op.slot]; in != nil && in.cancel != nil {
 			in.cancel()
+			in.lingering = false
 			if !in.done {
 				in.done, in.outcome = true, []string{"ctx:canceled"}
 			}
@@ -404,6 +469,7 @@ func c09exec(c *vt.Ctx, hist []c09op, pipeLike bool, ctrl *sched.Controller) {
 		for _, in := range w.insts {
 			if in.cancel != nil {
 				in.cancel()
+				in.lingering = false
 				if !in.done {
 					in.done, in.outcome = true, []string{"ctx:canceled"}
 				}
@@ -476,7 +542,7 @@ func c09nontrivial(h []c09op) bool {
 	issued := false
 	for _, o := range h {
 		switch o.kind {
-		case "cb", "ncb":
+		case "cb", "ncb", "cbfail", "burst":
 			issued = true
 		case "reply", "err", "cancel", "tmo", "stop", "race", "racestop":
 			if issued {
@@ -492,7 +558,7 @@ func init() {
 		Prop:  "C09",
 		Level: "exploration",
 		Rule: "histories over {Callback slot 1, Callback slot 2 with deadline, notification whose handler awaits a Callback (slot 3), Notify, reply/error-reply to a slot (late, duplicate, unknown ids included), cancel slot, " +
-			"deadline passes, client call with id 1 and its release, Stop, reply||cancel, reply||Stop}: all histories up to length 3 (4 in thorough) plus seeded longer ones, settle + reference model after every operation; " +
+			"deadline passes, client call with id 1 and its release, Stop, a Callback whose request cannot be transmitted, a burst of three Notify and one Callback issued at once, reply||cancel, reply||Stop}: all histories up to length 3 (4 in thorough) plus seeded longer ones, settle + reference model after every operation; " +
 			"delay-bounded schedules and seeded perturbation on top. distinct_nontrivial = distinct (history, channel flavour, delay set) in which a callback is issued and later addressed by a reply, cancel, deadline or stop",
 		Assumptions: []string{
 			"Go 1.26.8 runtime and testing/synctest (virtual time for deadlines, quiescence for absence)",
@@ -539,6 +605,27 @@ func c09cases(e vt.Env, yield func(vt.Case) bool) {
 			}}) {
 				return
 			}
+		}
+	}
+	// S: every history up to length 4 over a small alphabet around a Callback whose send failed
+	small := []c09op{{"cbfail", 1}, {"cb", 2}, {"cb", 1}, {"cancel", 1}, {"reply", 2}, {"reply", 1}, {"burst", 0}}
+	for a := range small {
+		a := a
+		id := fmt.Sprintf("S/%s *", small[a])
+		if !yield(vt.Case{ID: id, Run: func(c *vt.Ctx) {
+			seqs(len(small), 0, 3, func(idx []int) bool {
+				h := []c09op{small[a]}
+				for _, k := range idx {
+					h = append(h, small[k])
+				}
+				c09exec(c, h, len(idx)%2 == 0, sched.New())
+				if c09nontrivial(h) {
+					c.Distinct("S:" + c09hsig(h))
+				}
+				return !c.Failed()
+			})
+		}}) {
+			return
 		}
 	}
 	full := append(append([]c09op(nil), alpha...), c09op{"race", 1}, c09op{"race", 2}, c09op{"race", 3}, c09op{"racestop", 1}, c09op{"racestop", 3})
